@@ -229,8 +229,9 @@ Qed.
 Lemma call_eqb_eq x y : call_eqb x y = true <-> x = y.
 Proof.
   destruct x, y; cbn; try (split; discriminate);
-    rewrite ?andb_true_iff, ?N.eqb_eq;
-    (split; [intros H; decompose [and] H; subst; reflexivity | intros H; inversion H; auto]).
+    rewrite ?andb_true_iff, ?N.eqb_eq, ?bytes_eqb_eq;
+    (split; [intros H; decompose [and] H; subst; reflexivity
+            | intros H; inversion H; repeat split; auto]).
 Qed.
 
 Lemma call_eqb_refl x : call_eqb x x = true.
@@ -339,7 +340,7 @@ Qed.
 
 Lemma serve_as_host_iff l p q c :
   serve_as_host l p q = Some c <->
-  q_ts_ok q = true /\ c = CallASHost (proto_of_pb (q_proto q)) (q_src q) (q_dst q) /\
+  q_ts_ok q = true /\ c = CallASHost (proto_of_pb (q_proto q)) (q_src q) (q_dst q) (q_dsth q) /\
   proto_of_pb (q_proto q) <> generic /\ q_dst q = l /\
   exists a, p = PTCP a /\ same_host a (q_dsth q).
 Proof.
@@ -355,7 +356,7 @@ Qed.
 
 Lemma serve_host_as_iff l p q c :
   serve_host_as l p q = Some c <->
-  q_ts_ok q = true /\ c = CallHostAS (proto_of_pb (q_proto q)) (q_src q) (q_dst q) /\
+  q_ts_ok q = true /\ c = CallHostAS (proto_of_pb (q_proto q)) (q_src q) (q_dst q) (q_srch q) /\
   proto_of_pb (q_proto q) <> generic /\ q_src q = l /\
   exists a, p = PTCP a /\ same_host a (q_srch q).
 Proof.
@@ -371,7 +372,7 @@ Qed.
 
 Lemma serve_host_host_iff l p q c :
   serve_host_host l p q = Some c <->
-  q_ts_ok q = true /\ c = CallHostHost (proto_of_pb (q_proto q)) (q_src q) (q_dst q) /\
+  q_ts_ok q = true /\ c = CallHostHost (proto_of_pb (q_proto q)) (q_src q) (q_dst q) (q_srch q) (q_dsth q) /\
   proto_of_pb (q_proto q) <> generic /\
   exists a, p = PTCP a /\
     ((q_src q = l /\ same_host a (q_srch q)) \/ (q_dst q = l /\ same_host a (q_dsth q))).
